@@ -72,7 +72,8 @@ def Store.putFresh (s : Store) (hn : Nat) (x : FArr Rat) : Store :=
 def memoArr (x : FArr Rat) : FArr Rat := ⟨x.dims, x.values.memo 0⟩
 
 def parseOperand? (s : Store) (t : String) : Option (Operand Rat) :=
-  if strTake t 2 == "n:" then (parseRat? (strDrop t 2)).map Operand.num
+  -- `n:` a Python number, `I:` a numpy integer scalar, `F:` a numpy float32 scalar: numbers all the same
+  if strTake t 2 == "n:" || strTake t 2 == "I:" || strTake t 2 == "F:" then (parseRat? (strDrop t 2)).map Operand.num
   else (s.arr? t).map Operand.arr
 
 def parseDimKey? (s : Store) (t : String) : Option DimKey :=
@@ -171,6 +172,14 @@ def arrayStep (s : Store) (toks : List String) : Option (Store × String) :=
       | _, _ => (s, "err"))
   | "dset" :: h :: ds =>
     some (putDset s h ((ds.mapM s.dim?).bind DimSet.mk?))
+  | "sarr" :: _ :: h :: ds :: sh :: vals =>
+    -- a Parameter / StockArray / Flow: the same constructor contract as the base class
+    some (putArr s h (do
+      let dims ← s.dset? ds
+      let shape ← parseShape? sh
+      let vs ← vals.mapM parseRat?
+      if vs.length ≠ prodList shape then none else
+      FArr.mk? dims (ND.ofFlat shape vs.toArray 0)))
   | "iarr" :: h :: ds :: sh :: vals =>
     -- the same array, held with an integer dtype by the implementation
     some (putArr s h (do
